@@ -65,6 +65,10 @@ def run_contract(ctx, n, with_model=True):
             ws = weights_for(rng, npop)
             cum = list(itertools.accumulate(ws))
             h = rng.choice([0, 1, 2 ** 32 - 1, rng.randrange(2 ** 32), rng.randrange(2 ** 32)])
+            if rng.random() < 0.4 and npop > 1:
+                # positions on and next to the equal-share boundaries k/n (where the unweighted form and equal weights must agree exactly)
+                kq = rng.randrange(1, npop)
+                h = max(0, min(2 ** 32 - 1, (kq * 2 ** 32) // npop + rng.choice([-1, 0, 0, 1]))) if rng.random() < 0.6 else rng.randrange(1, 8) * 2 ** 29
         variants = [
             ("weights", dict(weights=ws), "ok"),
             ("cum", dict(cum_weights=cum), "ok"),
